@@ -438,11 +438,11 @@ def minkowski_rules(db, chk, cfg, rule="MINK"):
         # every combination of: path closed or open, and (for each operand) its last vertex repeating its first.  A repeated closing
         # vertex only contributes zero-length edges to a *closed* outline (the pattern always is one), so there - and only there - the
         # range may stop one short.
-        for closed in (False, True):
-            for dpat in (False, True):
-                for dpath in (False, True):
+        # ... for several operand sizes (a two-point pattern is a legitimate pen: a segment), so that no size is special-cased
+        for closed, dpat, dpath, P, Q in [(c_, a_, b_, p_, q_) for c_ in (False, True) for a_ in (False, True) for b_ in (False, True)
+                                          for (p_, q_) in ((5, 7), (2, 7), (3, 2), (2, 3), (4, 4))]:
                     dup = {pat: dpat, path: dpath}
-                    env, returned, _ = _mink_prefix_env(db, f, stmts, {pat: 5, path: 7}, {isClosed: closed, isSum: True}, dup)
+                    env, returned, _ = _mink_prefix_env(db, f, stmts, {pat: P, path: Q}, {isClosed: closed, isSum: True}, dup)
                     if returned:
                         ok = False
                         continue
@@ -451,7 +451,7 @@ def minkowski_rules(db, chk, cfg, rule="MINK"):
                         for b in range(1, 12):
                             e2 = dict(env)
                             e2[cur] = b
-                            if not bool(Interp(db, e2, [], call_hook=_mink_hook(db, {pat: 5, path: 7}, dup)).ev(kids(loop)[2])):
+                            if not bool(Interp(db, e2, [], call_hook=_mink_hook(db, {pat: P, path: Q}, dup)).ev(kids(loop)[2])):
                                 return b
                         return None
                     try:
@@ -459,12 +459,12 @@ def minkowski_rules(db, chk, cfg, rule="MINK"):
                     except Unsupported:
                         ok = False
                         continue
-                    okI = bI == 7 or (bI == 6 and closed and dpath)
-                    okJ = bJ == 5 or (bJ == 4 and dpat)
+                    okI = bI == Q or (bI == Q - 1 and closed and dpath)
+                    okJ = bJ == P or (bJ == P - 1 and dpat)
                     if not (okI and okJ and env.get(I) == (0 if closed else 1) and env.get(G) == ((bI - 1) if closed else 0) and env.get(H) == bJ - 1):
                         ok = False
-                        why_ce = ("isClosed=%s, path %s, pattern %s: path cursor runs %s..%s (previous starts at %s), pattern cursor up to %s (previous %s)"
-                                  % (closed, "ends on its first vertex" if dpath else "has distinct ends", "ends on its first vertex" if dpat else "has distinct ends",
+                        why_ce = ("isClosed=%s, path of %d %s, pattern of %d %s: path cursor runs %s..%s (previous starts at %s), pattern cursor up to %s (previous %s)"
+                                  % (closed, Q, "ending on its first vertex" if dpath else "with distinct ends", P, "ending on its first vertex" if dpat else "with distinct ends",
                                      env.get(I), (bI - 1) if bI else "?", env.get(G), (bJ - 1) if bJ else "?", env.get(H)))
     n += 1
     chk.instance(rule + ".closing-edge", {"obligation": "edges (previous, current) run over current = (closed ? 0 : 1)..pathLen-1 with previous starting at the last (closed) / "
@@ -842,3 +842,106 @@ def bisector_threshold_rule(db, chk, cfg, rule="THRESHOLD.bisector"):
                       "lengths below %s as zero and returns the zero vector: joins turning between the two thresholds are squared along no direction at all "
                       "(the vertex itself is emitted)" % (C, C, (2 - 2 * C) ** 0.5, E), where(site), cfg=cfg)
     return 1
+
+
+# ---------------------------------------------------------------------------
+# EMIT.every-path: the per-path offsetters hand a contour to the solution on every path through them
+# ---------------------------------------------------------------------------
+
+def emit_every_path_rule(db, chk, cfg, rule="EMIT.every-path"):
+    """OffsetPolygon, OffsetOpenJoined and OffsetOpenPath are what DoGroupOffset calls for a path that survived its own filters
+    (empty path, single point, a group delta that cannot be honoured).  Whatever they are handed is offset: on every path from entry
+    to exit the function appends path_out to the solution, or calls a sibling that does so on all of its paths.  A return in front
+    of that - "this ring would vanish anyway" - judges a path by a global quantity (net area, bounding box) that says nothing
+    about the lobes of a self-crossing path, or about the outer side of a Joined path, which is offset by the same function."""
+    from ..flow import Walker, Client
+    names = ("ClipperOffset::OffsetPolygon", "ClipperOffset::OffsetOpenJoined", "ClipperOffset::OffsetOpenPath")
+    funcs = {}
+    for q in names:
+        fs = [f for f in db.find(q) if f.body is not None and not f.is_pattern]
+        if len(fs) != 1:
+            raise AnalysisBroken("%s: %s not found exactly once (configuration %s)" % (rule, q, cfg))
+        funcs[fs[0].name] = fs[0]
+    always = set()
+
+    class _Emit(Client):
+        def __init__(self):
+            self.bad = []
+
+        def join(self, a, b):
+            return a and b
+
+        def stmt(self, node, st):
+            if st:
+                return st
+            for y in walk(node):
+                k = y.get("kind")
+                if k == "CXXMemberCallExpr":
+                    nm = db.callee(y)[0]
+                    base = db.member_base(y)
+                    if nm in ("emplace_back", "push_back") and base is not None and canon(base).replace("(", "").replace(")", "").replace("*", "").replace("this->", "") == "solution":
+                        return True
+                    if nm in always and (base is None or _u(base).get("kind") == "CXXThisExpr"):
+                        return True
+            return st
+
+        def cond_atom(self, expr, st):
+            # a test of nothing but the size of the path handed in (`if (path.size() < 2) return;`) repeats DoGroupOffset's own
+            # filters: the branch a long path does not take carries no obligation
+            pname = self.pname
+            leaves_ok = True
+            for y in walk(expr):
+                k = y.get("kind")
+                if k == "DeclRefExpr" and y.get("referencedDecl", {}).get("name") != pname:
+                    leaves_ok = False
+                if k in ("CallExpr", "CXXOperatorCallExpr") or (k == "CXXMemberCallExpr" and db.callee(y)[0] not in ("size", "empty")):
+                    leaves_ok = False
+                if k == "MemberExpr" and y.get("name") not in ("size", "empty"):
+                    leaves_ok = False
+            if leaves_ok and any(y.get("kind") == "CXXMemberCallExpr" for y in walk(expr)):
+                def hook(name, argv, nd):
+                    if name == "size":
+                        return 1000
+                    if name == "empty":
+                        return False
+                    return NotImplemented
+                try:
+                    long_takes = bool(Interp(db, {}, [], call_hook=hook).ev(expr))
+                    return (st, True) if long_takes else (True, st)
+                except Unsupported:
+                    pass
+            s2 = self.stmt(expr, st)
+            return s2, s2
+
+        def on_return(self, node, st):
+            if not st:
+                self.bad.append(node)
+
+        def on_exit(self, st):
+            if st is not None and not st:
+                self.bad.append(None)
+
+    results = {}
+    for _ in range(len(funcs) + 1):
+        changed = False
+        for nm, f in funcs.items():
+            cl = _Emit()
+            cl.pname = [p.get("name") for p in f.params if "Path" in qt(p) or "vector" in qt(p)][-1]
+            Walker(cl).function(f.body, False)
+            results[nm] = cl.bad
+            if not cl.bad and nm not in always:
+                always.add(nm)
+                changed = True
+        if not changed:
+            break
+    n = 0
+    for nm, f in funcs.items():
+        n += 1
+        bad = results[nm]
+        chk.instance(rule, {"function": f.qual, "obligation": "every path through the function appends path_out to the solution", "cfg": cfg}, ok=not bad)
+        if bad:
+            at = bad[0]
+            chk.violation(rule, f.qual, "exit", "%s can return%s without having appended a contour to the solution: the path it was handed is dropped from the offset "
+                          "(for a Joined path or a self-crossing one that is part of the region within |delta| of the input)"
+                          % (f.qual, (" at %s" % where(at)) if at is not None else " (falling off its end)"), where(at) if at is not None else f.where, cfg=cfg)
+    return n
